@@ -58,19 +58,32 @@ Theorem C02_seq_place_complete :
 Proof. exact seq_place_complete. Qed.
 
 (* The Hilbert chip order (model of hilbert.hilbert / hilbert_chip_order, compared with the code's on every
-   case) meets the side condition of the completeness theorem -- every working chip exactly once -- for all
-   machines up to 16 x 16 (finite statement, the bound is part of it: the curve of level k <= 4 is checked by
-   computation to enumerate the 2^k x 2^k square without repetition); hence hilbert.place is complete there.
+   case; the level formula int(ceil(log(max(w, h), 2.0))) is compared with the model's integer search
+   exhaustively for max(w, h) <= 4096 on every run) meets the side condition of the completeness theorem --
+   every working chip exactly once -- for EVERY machine size (in particular up to the 256 x 256 addressing limit).
+   Proved by structural induction on the level of the L-system: started at p with an axis heading d and
+   angle a = +-1 the curve of level k has 4^k points, contains every p + i*d + j*L (0 <= i, j < 2^k, L = d
+   turned by a) and ends at p + (2^k - 1)*d with heading d; so it enumerates the 2^k x 2^k square without
+   repetition, and the level chosen satisfies 2^level >= max(w, h).  Hence hilbert.place is complete.
    For breadth_first.place / rcm.place the orders come from set iteration in CPython, which is not modelled:
    the check records them and evaluates the side conditions per instance. *)
-Theorem C02_hilbert_chip_order_ok_upto_16 :
-  forall m, pm_width m <= 16 -> pm_height m <= 16 -> chip_order_ok m (hilbert_chip_order m).
+Theorem C02_hilbert_curve_enumerates_square :
+  forall k, NoDup (hilbert k)
+            /\ length (hilbert k) = (4 ^ k)%nat
+            /\ forall x y, 0 <= x < 2 ^ Z.of_nat k -> 0 <= y < 2 ^ Z.of_nat k -> In (x, y) (hilbert k).
+Proof. exact (fun k => conj (hilbert_NoDup k) (hilbert_spec k)). Qed.
+
+Theorem C02_hilbert_levels_cover :
+  forall m, Z.max (pm_width m) (pm_height m) <= 2 ^ Z.of_nat (hilbert_levels m).
+Proof. exact hilbert_levels_cover. Qed.
+
+Theorem C02_hilbert_chip_order_ok_all_sizes :
+  forall m, chip_order_ok m (hilbert_chip_order m).
 Proof. exact hilbert_chip_order_ok. Qed.
 
-Theorem C02_hilbert_place_complete_upto_16 :
+Theorem C02_hilbert_place_complete_all_sizes :
   forall vr m cs r0 vertex_order,
     wf_problem vr m cs -> unit_premise vr m cs r0 ->
-    pm_width m <= 16 -> pm_height m <= 16 ->
     (forall vo, vertex_order = Some vo -> vertex_order_ok vr vo) ->
     exists pl, seq_place vr m cs vertex_order (Some (hilbert_chip_order m)) = Ok pl.
 Proof. exact hilbert_place_complete. Qed.
